@@ -3,9 +3,11 @@
    MC_C08.cfg       laws: 2 cells, every payload over {0,1} of length <= 2 (and nil), algorithms 0,1,2 and an unknown
                     one, two keys, valid and invalid bearer / direction, every keystream function on up to 2 points.
    MC_C08_guard.cfg guards: one cell, boundary values of algorithm (0..4, 255), bearer (0, 31, 32, 255) and
-                    direction (0, 1, 2, 255). *)
+                    direction (0, 1, 2, 255).
+   MC_C08_sim.cfg   (stage B) random walks of the same machine with more values; the walks are replayed on real buffers. *)
 EXTENDS SecurityApi
 AllPats == {<<a, b>> : a \in Sym, b \in Sym}
+Pats3 == {<<a, b, c>> : a \in Sym, b \in Sym, c \in Sym}
 OnePat == {<<a>> : a \in Sym}
 TwoMacs == {<<0, 0, 0, 0>>, <<1, 0, 1, 1>>}
 ==============================================================================
